@@ -295,3 +295,63 @@ PROPS = {
         undecided=["weights proportional to slope^p and summing to one *within rounding*: no bit-precise statement exists (DESIGN 1.4)"],
     ),
 }
+
+
+# ------------------------------------------------------------------------------------------------------------------------------------------
+# C09 (history independence) for the cells the structure clauses leave open: a node that is its own receiver (base level, masked, no lower
+# neighbour) has ONE receiver slot; the property fixes receiver and count, and C09 demands that the slot's distance and weight -- which
+# accumulate(), kernels and snapshots read -- do not depend on what the tables held before.  Two-run self-composition of the extracted step at the
+# same node on two copies of the output tables with DIFFERENT arbitrary previous contents and the same inputs (no floating-point operation runs on
+# this path, so the abstracted operations do not enter): every observable cell of the node's rows must agree.
+H_DET = r"""
+size_t nondet_size_t(void); _Bool nondet_bool(void); double nondet_double(void); uint8_t nondet_u8(void);
+#define DN 3
+void h_mrouter_det(void)
+{
+    size_t gsize = DN;
+    struct srow recA[DN], recB[DN]; struct donrow donA[DN], donB[DN]; size_t rcA[DN], rcB[DN], dcA[DN], dcB[DN]; struct drow dA[DN], dB[DN], wA[DN], wB[DN];
+    _Bool mask[DN], bl[DN]; uint8_t st[DN]; double elev[DN];
+    _Bool m_mask_initialized = nondet_bool(); double op_slope_exp = nondet_double();
+    __CPROVER_assume(op_slope_exp >= 0 && op_slope_exp < INFINITY);
+    GSIZE = gsize; G = nondet_size_t(); GN_cnt = nondet_size_t(); GR = nondet_size_t(); GS = nondet_size_t(); GX = nondet_size_t(); GD = nondet_double();
+%(init)s
+    __CPROVER_assume(G < gsize && GN_cnt <= FSL_NBMAX);
+    __CPROVER_assume(%(nbwf)s);
+    /* the two histories: donor counts leave room for one more entry per row (stated row-capacity instance of the step) */
+    for (int r = 0; r < DN; ++r) { __CPROVER_assume(dcA[r] < DON_W && dcB[r] < DON_W); }
+    /* the node is its own receiver: terminal, or no strictly lower unmasked neighbour */
+    __CPROVER_assume((m_mask_initialized && mask[G]) || bl[G] || !(%(some)s));
+    mrouter_step(G, gsize, recA, rcA, dA, wA, donA, dcA, mask, m_mask_initialized, bl, st, elev, op_slope_exp);
+    mrouter_step(G, gsize, recB, rcB, dB, wB, donB, dcB, mask, m_mask_initialized, bl, st, elev, op_slope_exp);
+    __CPROVER_assert(rcA[G] == rcB[G] && rcA[G] == 1, "C09 receivers_count of an own-receiver node does not depend on the previous table contents");
+    __CPROVER_assert(recA[G].c[0] == recB[G].c[0], "C09 receiver slot 0 does not depend on the previous table contents");
+    __CPROVER_assert(dA[G].c[0] == dB[G].c[0] || (isnan(dA[G].c[0]) && isnan(dB[G].c[0])), "C09 receiver distance slot 0 of an own-receiver node does not depend on the previous table contents");
+    __CPROVER_assert(wA[G].c[0] == wB[G].c[0] || (isnan(wA[G].c[0]) && isnan(wB[G].c[0])), "C09 receiver weight slot 0 of an own-receiver node does not depend on the previous table contents");
+    __CPROVER_assert(0, "canary: postcondition point reachable");
+}
+"""
+
+
+def det_group(nb):
+    init = "".join("    GN[%d].idx = nondet_size_t(); GN[%d].distance = nondet_double();\n" % (k, k) for k in range(nb))
+    nbwf = conj("%k < GN_cnt ==> (GN[%k].idx < DN && GN[%k].distance > 0 && GN[%k].distance < INFINITY)", nb)
+    some = disj("%k < GN_cnt && !(m_mask_initialized && mask[GN[%k].idx]) && elev[GN[%k].idx] < elev[G]", nb)
+    return Group(
+        name="mrouter.step.determinacy.nb%d" % nb, units=[is_masked, is_base_level, make_step(nb, False, False)],
+        harness=H_DET % dict(init=init, nbwf=nbwf, some=some), entry="h_mrouter_det",
+        replace=["grid_neighbors", "fsl_div_abs", "fsl_div_unit", "fsl_pow"],
+        unwindset={("mrouter_step", 0): nb + 1, ("mrouter_step", 1): nb + 1}, unwind=5, defines=defines(nb),
+        backend="sat", timeout=600, min_obligations=4, replay="replay/routing.cpp", object_bits=12,
+        clause="multi_flow_router, node that is its own receiver (terminal or no lower neighbour), two runs on different previous table contents with "
+               "the same inputs: count, receiver, distance and weight of slot 0 agree (every cell an observer reads is overwritten); tables of %d nodes, "
+               "<= %d neighbours" % (3, nb))
+
+
+GROUPS["C09"] = [det_group(2)]
+PROPS["C09"] = dict(
+    level="other",
+    explanation="multiple-direction router: the structure clauses (C05) determine count / receivers / distances of draining nodes; for own-receiver nodes the "
+                "distance and weight of the single slot are shown independent of the tables' previous contents by a two-run self-composition of the extracted step.",
+    undecided=["weights of draining nodes are abstract (pow / division as deterministic functions): their independence of history follows from the frame "
+               "(the step's only inputs are the declared read-only tables) but is not stated bit-precisely"],
+)
